@@ -257,6 +257,49 @@ func checkC15(c *Ctx) Meta {
 			c.Bad("C15-PLACE", key, c.Pos(f.Pos()), "the new space is not created in the directory passed by the caller")
 		}
 	}
+	// the default directory is the keeper's *current* first db dir: where a creation step takes its
+	// directory from the keeper (not from a requested path), the dbDirs field is read inside that step —
+	// not a copy some other object took when the keeper was built (ConfigureByPath re-assigns dbDirs; a
+	// copy keeps creating plot files in the start-up directory, outside the configured ones)
+	for _, name := range []string{"generateNewWorkSpace", "generateNewWorkSpaceByPubKey", "generateFillSpaceListBySize", "generateFillSpaceListByBitLength", "generateFillSpaceListByPubKey", "generateFillSpaceListByPathSize"} {
+		f := c.fnExact(pkgS, "(*SpaceKeeper)."+name)
+		if f == nil {
+			continue // folded into its callers: judged there
+		}
+		setBindCtx(f)
+		body := map[*ssa.Function]bool{}
+		for _, g := range bodyFns(f, nil) {
+			body[g] = true
+		}
+		key := name + ":default-directory-read-from-the-keeper-now"
+		n, bad := 0, ""
+		for g := range body {
+			for _, cl := range callsInShallow(g, pkgCapacity+".NewWorkSpace", sk+"generateNewWorkSpaceByPath") {
+				dir := cl.Call.Args[1]
+				sl := backSlice(dir)
+				if sl.hasParam(f, "path") || sl.hasParam(f, "rootDir") {
+					continue // a requested directory (C15-PLACE rules above)
+				}
+				n++
+				cur := false
+				for v := range sl.vals {
+					if u, ok := v.(*ssa.UnOp); ok && u.Op == token.MUL && body[u.Parent()] {
+						if t, fld, _, isF := fieldOfValue(u); isF && t == pkgCapacity+".SpaceKeeper" && fld == "dbDirs" {
+							cur = true
+						}
+					}
+				}
+				if !cur {
+					bad = c.Pos(cl.Pos())
+				}
+			}
+		}
+		if bad != "" {
+			c.Bad("C15-PLACE", key, bad, "a new space is created in a directory that is not read from the keeper's dbDirs at the time of the creation (a copy taken earlier): after ConfigureByPath has re-assigned dbDirs the copy is stale and plot files appear outside the configured directories")
+		} else if n > 0 {
+			c.OK("C15-PLACE", key, c.Pos(f.Pos()), fmt.Sprintf("%d default-directory creation(s) read sk.dbDirs inside the step", n))
+		}
+	}
 	if f := c.MustFn("C15-PLACE", pkgS, "NewWorkSpace"); f != nil {
 		key := "NewWorkSpace:rootDir-reaches-db"
 		ok := true
